@@ -485,6 +485,92 @@ func c20case(c *Ctx, r *Rng, keys []string) {
 	c20exec(c, key, proto, permits, ins, ops)
 }
 
+// c20directed: a table of at least 33 nodes in which exactly 32 are strictly closer to the content id than the 33rd, the source
+// is one of those 32, and the 33rd nearest has a cached radius that covers the content while only a few of the 32 do: if the
+// source were dropped BEFORE the cut to the 32 nearest, the 33rd would become a candidate and (few candidates) a target.
+func c20directed(c *Ctx, r *Rng, keys []string) {
+	proto := r.Pick2([]string{"history", "state", "beacon", "other"})
+	key := keys[r.Intn(len(keys))]
+	inst := hInstanceP(key, "-", proto, 50)
+	self := inst.Self().ID()
+	// a content id whose log distance D to the local id leaves room: nodes closer than D to the content all fall into one
+	// bucket (16), nodes at exactly D can be placed in any lower bucket, nodes at D+1.. have a bucket each
+	var ckey []byte
+	var cid [32]byte
+	D := 0
+	for try := 0; try < 200; try++ {
+		ckey = r.Bytes(4 + r.Intn(20))
+		cid = sha256.Sum256(ckey)
+		D = enode.LogDist(self, enode.ID(cid))
+		if D >= 245 && D <= 255 {
+			break
+		}
+	}
+	if D < 245 || D > 255 {
+		return
+	}
+	mk := func(id enode.ID) *enode.Node {
+		return hRecord(nil, id, hIP(r, r.Pick2([]string{"loop", "lan10", "lan192"})), 30303, 1, 0)
+	}
+	var inner []*enode.Node // the 32 nearest
+	a := 4 + r.Intn(9)
+	for i := 0; i < a; i++ { // strictly closer than D
+		inner = append(inner, mk(hIDAtDistance(r, enode.ID(cid), 1+r.Intn(D-1))))
+	}
+	for i := 0; len(inner) < 32; i++ { // exactly D from the content id, spread over the buckets 241..D-1 of the local table
+		k := 241 + i%(D-241)
+		inner = append(inner, mk(hIDAtDistance(r, self, k)))
+	}
+	n33 := mk(hIDAtDistance(r, enode.ID(cid), D+1))
+	nodes := append([]*enode.Node{}, inner...)
+	nodes = append(nodes, n33)
+	for i, k := 0, r.Intn(12); i < k; i++ { // farther ones
+		nodes = append(nodes, mk(hIDAtDistance(r, enode.ID(cid), D+1+r.Intn(256-D))))
+	}
+	// insertion order is irrelevant for the selection; shuffle it
+	for i := len(nodes) - 1; i > 0; i-- {
+		j := r.Intn(i + 1)
+		nodes[i], nodes[j] = nodes[j], nodes[i]
+	}
+	var ins []c11ins
+	for _, n := range nodes {
+		ins = append(ins, c11ins{hEnrBytes(n), true})
+	}
+	src := inner[r.Intn(len(inner))]
+	maxRadius := make([]byte, 32)
+	for i := range maxRadius {
+		maxRadius[i] = 0xff
+	}
+	var ops []string
+	report := func(n *enode.Node) {
+		pl := pingext.NewClientInfoAndCapabilitiesPayload(maxRadius, []uint16{0, 65535})
+		payload, _ := pl.MarshalSSZ()
+		if r.Bool() {
+			m := &portalwire.Ping{EnrSeq: 1, PayloadType: pingext.ClientInfo, Payload: payload}
+			b, _ := m.MarshalSSZ()
+			ops = append(ops, fmt.Sprintf("pi~%s~%s", hx(hEnrBytes(n)), hx(append([]byte{portalwire.PING}, b...))))
+		} else {
+			m := &portalwire.Pong{EnrSeq: 1, PayloadType: pingext.ClientInfo, Payload: payload}
+			b, _ := m.MarshalSSZ()
+			ops = append(ops, fmt.Sprintf("po~%s~%s", hx(hEnrBytes(n)), hx(append([]byte{portalwire.PONG}, b...))))
+		}
+	}
+	report(n33)
+	if r.Bool() {
+		report(src)
+	}
+	for i, k := 0, 1+r.Intn(5); i < k; i++ { // a few of the 32 nearest are covered as well
+		report(inner[r.Intn(len(inner))])
+	}
+	ops = append(ops, fmt.Sprintf("g~%s~%s~1~1", hx(src.ID().Bytes()), hx(ckey)))
+	if r.Bool() { // the same content arriving from nobody in particular: the source is an ordinary candidate then
+		ops = append(ops, fmt.Sprintf("g~-~%s~1~1", hx(ckey)))
+	}
+	ops = append(ops, fmt.Sprintf("g~%s~%s~2~2", hx(src.ID().Bytes()), hx(ckey)))
+	c.Count("directed_source_among_32_nearest_33rd_covered")
+	c20exec(c, key, proto, 50, ins, ops)
+}
+
 func runC20(c *Ctx) {
 	hQuiet()
 	if len(c.Args) >= 2 && c.Args[0] == "replay" {
@@ -501,6 +587,10 @@ func runC20(c *Ctx) {
 	r := c.Rng
 	keys := []string{hKeyHex(hKey(r)), hKeyHex(hKey(r))}
 	for i := 0; i < n; i++ {
+		if i%10 == 3 {
+			c20directed(c, r, keys)
+			continue
+		}
 		c20case(c, r, keys)
 	}
 }
